@@ -426,6 +426,7 @@ func c12Exec(cs c12Case) (*fw.Violation, *harness.Client) {
 
 func runC12(c *fw.Ctx) {
 	runSpxFamily(c, "C12")
+	runSegmentation(c, map[string]bool{"c12": true, "c11": true}, "C12")
 	var item int64
 	sampled := 0
 	do := func(cs c12Case) {
@@ -525,6 +526,13 @@ func runC12(c *fw.Ctx) {
 }
 
 func replayC12(raw json.RawMessage) (string, bool) {
+	var segFam struct {
+		Family string `json:"family"`
+	}
+	json.Unmarshal(raw, &segFam)
+	if segFam.Family == "segmentation" {
+		return replaySegmentation(raw)
+	}
 	var r struct {
 		Case c12Case `json:"case"`
 	}
